@@ -76,6 +76,16 @@ def witness(ctx):
 
 def run(ctx):
     witness(ctx)
+    # progress also depends on what `set`/`new` record: a todo task that ends up carrying a claimant is never ready and is not "held" either.
+    # The exhaustive decision table of buildSetEvents against the model, and every disagreement run on the real binary under this property's oracle
+    res = fndiff.run_stream(ctx.ev, ["fn-setev"])
+    ctx.tie("T2-fn buildSetEvents", cases=res["cases"], exhaustive=True, disagreements=len(res["diffs"]))
+    ctx.count(res["cases"])
+    for d in res["diffs"][:3]:
+        ctx.tie_broken("T2-fn buildSetEvents", {"first_difference": fndiff.first_difference(d["go"], d["model"]), "req": d["req"]})
+    if res["diffs"]:
+        from . import c06
+        c06.probe_setev_diffs(ctx, res["diffs"], oracle_fn=oracle)
     r = gen.Rng(ctx.seed * 1000003 + 15)
     for h in range(25 if ctx.quick else 400):
         run_history(ctx, r.fork(), 40, WEIGHTS, oracle, gen_fn=gen_fn)
